@@ -712,6 +712,8 @@ class EvalMixin(object):
                 return self.dict_get(cell, idx, st, node, strict=True)
             if isinstance(cell, HObj) and cell.cls == "Scope":
                 return self.scope_getattr(base, cell, idx, st, node)
+            if isinstance(cell, HObj) and (cell.cls, "__getitem__") in self.method_contracts and not self.in_contract:
+                return self.method_contracts[(cell.cls, "__getitem__")](base).fn(self, st, [idx], {}, node)
             if isinstance(cell, HObj) and cell.cls == "Tree":
                 return st.alloc(HObj("Tree", {}))
             if isinstance(cell, HObj) and cell.cls == "ObjDict":
@@ -833,6 +835,9 @@ class EvalMixin(object):
 
     def getattr(self, base, name, st, node):
         if isinstance(base, VNS):
+            qn = ".".join((base.module,) + tuple(base.path) + (name,))
+            if qn in self.unit.global_callees:
+                return self.unit.global_callees[qn]       # module function under (assumed or verified) contract: "util.wformat"
             cv = self.resolve_constant(base, name, st)
             if cv is None:
                 raise OutOfSubset("%s.%s is not a literal constant of the repository" % (".".join((base.module,) + base.path), name), node)
